@@ -8,6 +8,9 @@ Decided:
             the write happens only on the Active edge.
   MPT-C42c  vacuum starts from a committed state (commit(ok) dominates everything) and returns Ok only through
             rebuild_indexes(ok) -> sync_all(ok).
+  FLOW-C42d vacuum hands the file to rebuild_indexes, which must not truncate below header.footer_offset: the sketch track
+            (and other tracks rebuild_indexes does not rewrite) lie between the payload end and the footer (shared with
+            C28's FLOW-C28f).
 Not decided: byte equality of contents before/after, search/timeline equality (values)."""
 from . import lib
 from .facts import Place, op_place
@@ -16,6 +19,8 @@ ALLOWED = {'payload_offset', 'payload_length'}
 
 
 def run(ctx):
+    from . import c28
+    c28._truncate(ctx, ctx.facts(), rule='FLOW-C42d')
     ctx.rule('WMC-C42a', 'vacuum stores only Frame.payload_offset / payload_length')
     ctx.rule('FLOW-C42b', 'payload written for a frame = payload read for the same frame id; offset = cursor; only for Active frames')
     ctx.rule('MPT-C42c', 'commit(ok) first; Ok only via rebuild_indexes(ok) -> sync_all(ok)')
